@@ -11,6 +11,7 @@ import (
 	"fmt"
 	"strings"
 
+	gogotypes "github.com/gogo/protobuf/types"
 	"google.golang.org/protobuf/types/known/durationpb"
 	"google.golang.org/protobuf/types/known/wrapperspb"
 )
@@ -58,10 +59,12 @@ const (
 	TPStr
 	TPInt
 	TPDur
-	NTypes = TPDur
+	TGStr // gogo/protobuf types.StringValue
+	TGInt // gogo/protobuf types.Int64Value
+	NTypes = TGInt
 )
 
-var TypeNames = []string{"", "CmdA", "CmdB", "EvtC", "Named", "Bad", "wrapperspb.StringValue", "wrapperspb.Int64Value", "durationpb.Duration"}
+var TypeNames = []string{"", "CmdA", "CmdB", "EvtC", "Named", "Bad", "wrapperspb.StringValue", "wrapperspb.Int64Value", "durationpb.Duration", "gogotypes.StringValue", "gogotypes.Int64Value"}
 
 // New returns new(T) for a type id.
 func New(ty int) any {
@@ -82,6 +85,10 @@ func New(ty int) any {
 		return &wrapperspb.Int64Value{}
 	case TPDur:
 		return &durationpb.Duration{}
+	case TGStr:
+		return &gogotypes.StringValue{}
+	case TGInt:
+		return &gogotypes.Int64Value{}
 	}
 	panic("c15types: unknown type id")
 }
@@ -125,6 +132,10 @@ func Make(ty int, a int, b string, ptr bool) any {
 		return wrapperspb.Int64(int64(a))
 	case TPDur:
 		return &durationpb.Duration{Seconds: int64(a), Nanos: int32(len(b))}
+	case TGStr:
+		return &gogotypes.StringValue{Value: b}
+	case TGInt:
+		return &gogotypes.Int64Value{Value: int64(a)}
 	}
 	panic("c15types: unknown type id")
 }
@@ -159,6 +170,10 @@ func Render(v any) (int, string) {
 		return TPInt, fmt.Sprintf("%d", x.GetValue())
 	case *durationpb.Duration:
 		return TPDur, fmt.Sprintf("%d.%d", x.GetSeconds(), x.GetNanos())
+	case *gogotypes.StringValue:
+		return TGStr, fmt.Sprintf("%q", x.GetValue())
+	case *gogotypes.Int64Value:
+		return TGInt, fmt.Sprintf("%d", x.GetValue())
 	}
 	return 0, fmt.Sprintf("?%T", v)
 }
